@@ -371,7 +371,8 @@ def match_sequence_type(value: Any,
 
         if name == '*':
             return True
-        elif parser is None:
+        elif parser is None or node_kind == 'attribute' and ':' not in name and name[0] != '{':
+            # an unprefixed attribute name is in no namespace, whatever the default element namespace is
             return v.name == name
         else:
             try:
